@@ -8,6 +8,7 @@ try:  # native side only (the verifier reads this file as text and ignores this 
     from workflows.runtime.types.internal_state import *  # noqa
     from workflows.runtime.types.results import *  # noqa
     from workflows.runtime.types.ticks import *  # noqa
+    from workflows.errors import *  # noqa
 except ImportError:  # pragma: no cover
     pass
 
@@ -142,3 +143,149 @@ class AddOrEnqueue:
             and same(state.in_progress[m].shared_state.collected_waiters, old.state.collected_waiters)
             and state.in_progress[m].shared_state.step_name == step_name
         )
+
+
+EVENT_FIELDS = {
+    "active_steps": "list[str]",
+    "timeout": "float",
+    "step_state": "StepState",
+    "name": "str",
+    "worker_id": "str",
+    "input_event_name": "str",
+    "output_event_name": "str | None",
+    "step_name": "str | None",
+    "exception": "Exception",
+    "attempts": "int",
+    "elapsed_seconds": "float",
+    "input_event": "Event",
+    "idle": "bool",
+    "event_type": "str",
+    "qualified_name": "str",
+}
+
+
+# --------------------------------------------------------------------------
+# broker-level predicates
+# --------------------------------------------------------------------------
+def wf(state):
+    """well-formed broker state: every configured step has a worker state, num_workers >= 1"""
+    return (
+        forall_keys(state.config.steps, lambda s: s in state.workers)
+        and forall_keys(state.workers, lambda s: wf_ws(state.workers[s]))
+    )
+
+
+def Inv1(state):
+    return forall_keys(state.workers, lambda s: I1(state.workers[s]))
+
+
+def Inv2(state):
+    return forall_keys(state.workers, lambda s: I2(state.workers[s]))
+
+
+def quiescent(state):
+    return state.is_running and forall_keys(
+        state.workers, lambda s: len(state.workers[s].queue) == 0 and len(state.workers[s].in_progress) == 0
+    )
+
+
+@contract("workflows.runtime.control_loop._check_idle_state")
+class CheckIdle:
+    properties = ["C03"]
+    raises = []
+
+    def requires(state):
+        return True
+
+    def inv_1():
+        return forall_keys(
+            state.workers,
+            lambda s: implies(
+                dpos(state.workers, s) < _i,
+                len(state.workers[s].queue) == 0 and len(state.workers[s].in_progress) == 0,
+            ),
+        )
+
+    def ensures_exact(old, state, result):
+        return result == quiescent(state)
+
+
+@contract("workflows.runtime.control_loop._process_cancel_run_tick")
+class CancelTick:
+    properties = ["C31", "C04", "C01", "C03"]
+    raises = []
+
+    def requires(tick, init):
+        return True
+
+    def ensures_state_kept(old, tick, init, result):
+        return same(result[0], init)
+
+    def ensures_commands(old, tick, init, result):
+        cmds = result[1]
+        return (
+            len(cmds) == 2
+            and isinstance(cmds[0], CommandPublishEvent)
+            and type_is(cmds[0].event, WorkflowCancelledEvent)
+            and isinstance(cmds[1], CommandHalt)
+            and type_is(cmds[1].exception, WorkflowCancelledByUser)
+        )
+
+
+@contract("workflows.runtime.control_loop._process_publish_event_tick")
+class PublishTick:
+    properties = ["C04", "C01", "C03"]
+    raises = []
+
+    def requires(tick, init):
+        return True
+
+    def ensures_passthrough(old, tick, init, result):
+        cmds = result[1]
+        return (
+            same(result[0], init)
+            and len(cmds) == 1
+            and isinstance(cmds[0], CommandPublishEvent)
+            and same(cmds[0].event, tick.event)
+        )
+
+
+@contract("workflows.runtime.control_loop._process_timeout_tick")
+class TimeoutTick:
+    properties = ["C31", "C04", "C01", "C03"]
+    raises = []
+
+    def requires(tick, init):
+        return True
+
+    def ensures_state(old, tick, init, result):
+        return (
+            result[0].is_running == False  # noqa: E712
+            and same(result[0].config, init.config)
+            and same(result[0].workers, init.workers)
+        )
+
+    def ensures_commands(old, tick, init, result):
+        cmds = result[1]
+        return (
+            len(cmds) == 2
+            and isinstance(cmds[0], CommandPublishEvent)
+            and type_is(cmds[0].event, WorkflowTimedOutEvent)
+            and cmds[0].event.timeout == tick.timeout
+            and isinstance(cmds[1], CommandHalt)
+            and type_is(cmds[1].exception, WorkflowTimeoutError)
+        )
+
+    def ensures_active_steps(old, tick, init, result):
+        # the event names exactly the steps that had running invocations
+        ev = result[1][0].event
+        return forall_of(
+            "str",
+            lambda s: (s in ev.active_steps) == (s in init.workers and len(init.workers[s].in_progress) > 0),
+        )
+
+    def native_ensures_active_steps(old, tick, init, result):
+        ev = result[1][0].event
+        return set(ev.active_steps) == {s for s, w in init.workers.items() if len(w.in_progress) > 0} and len(
+            set(ev.active_steps)
+        ) == len(ev.active_steps)
